@@ -90,6 +90,7 @@ type Monitor interface {
 // ---------------------------------------------------------------------------
 
 type Sim struct {
+	gasSeen map[string]int64 // gas used by the last successful transaction of each message type
 	Seed   uint64
 	Cfg    SwarmConfig
 	W      *World
@@ -187,7 +188,7 @@ func (s *Sim) Ctx() sdk.Context {
 
 // NewSim boots nodes and runs InitChain.
 func NewSim(seed uint64, cfg SwarmConfig, replay *Trace) (*Sim, error) {
-	s := &Sim{Seed: seed, Cfg: cfg, rngs: map[string]*rand.Rand{}, Stats: NewStats()}
+	s := &Sim{Seed: seed, Cfg: cfg, rngs: map[string]*rand.Rand{}, Stats: NewStats(), gasSeen: map[string]int64{}}
 	s.W = NewWorld(cfg.Genesis)
 	s.Hooks = &TxHooks{sim: s}
 	var err error
@@ -469,6 +470,18 @@ func (s *Sim) execBlock(spec *BlockSpec) {
 		// Commit would dead-lock, so the simulated disk reclaims them here.
 		s.Stats.Inc("probe/db_iterator_leaked_on_out_of_gas", float64(n))
 	}
+	if dbg := os.Getenv("ELYSSIM_DEBUG_EVENTS"); dbg != "" && res0.Resp != nil && dbg == fmt.Sprint(h) {
+		for _, ev := range res0.Resp.Events {
+			if strings.HasPrefix(ev.Type, "coin_") || ev.Type == "transfer" || ev.Type == "message" || ev.Type == "coinbase" || ev.Type == "burn" || ev.Type == "mint" {
+				continue
+			}
+			fmt.Printf("DEBUGEV h=%d %s", h, ev.Type)
+			for _, a := range ev.Attributes {
+				fmt.Printf(" %s=%s", a.Key, a.Value)
+			}
+			fmt.Println()
+		}
+	}
 	if res0.Err == nil && res0.Panic == "" {
 		s.N0.Commit(&res0)
 	}
@@ -575,6 +588,9 @@ func (s *Sim) recordTxStats(eb *ExecBlock) {
 			typ = shortType(sdk.MsgTypeURL(t.Spec.Msgs[0]))
 		}
 		if t.OK() {
+			if len(t.Spec.Msgs) > 0 && t.Res.GasUsed > 0 {
+				s.gasSeen[sdk.MsgTypeURL(t.Spec.Msgs[0])] = t.Res.GasUsed
+			}
 			s.Stats.Inc("tx_ok/"+typ, 1)
 			s.Stats.Inc("tx_ok", 1)
 		} else {
